@@ -3,6 +3,7 @@ package main
 // Contract files: //@ directives in <pkg>/contracts_verif.go (build tag verif).
 
 import (
+	"regexp"
 	"fmt"
 	"go/ast"
 	"go/parser"
@@ -134,6 +135,8 @@ var clauseKeywords = map[string]bool{
 	"inline": true, "assumed": true, "pure": true, "use": true, "deterministic": true, "noworld": true, "opaque": true, "dispatch": true, "detargs": true, "loop": true, "range": true, "callsite": true, "decreases": true,
 }
 
+var externMethodRE = regexp.MustCompile(`^([\w./-]+)\.\((\*?\w+)\)\.(\w+)(\(.*)$`)
+
 func firstWord(s string) string {
 	s = strings.TrimSpace(s)
 	if i := strings.IndexAny(s, " \t("); i >= 0 {
@@ -180,12 +183,17 @@ func (cs *ContractSet) parseFile(path, pkgPath string) error {
 			cpkg := pkgPath
 			if kw == "extern" {
 				// extern <pkgpath>.<Func>(params) (results): assumed contract of a function outside the repository
-				j := strings.Index(rest, "(")
-				i := strings.LastIndex(rest[:j], ".")
-				if i < 0 {
-					return fail(fmt.Errorf("extern expects pkgpath.Func(...)"))
+				if m := externMethodRE.FindStringSubmatch(rest); m != nil {
+					// extern <pkgpath>.(*T).Method(params) (results): the receiver is called self
+					cpkg, rest = m[1], "(self "+m[2]+") "+m[3]+m[4]
+				} else {
+					j := strings.Index(rest, "(")
+					i := strings.LastIndex(rest[:j], ".")
+					if i < 0 {
+						return fail(fmt.Errorf("extern expects pkgpath.Func(...)"))
+					}
+					cpkg, rest = rest[:i], rest[i+1:]
 				}
-				cpkg, rest = rest[:i], rest[i+1:]
 			}
 			k2 := kw
 			if kw == "extern" {
